@@ -291,6 +291,24 @@ def run(ctx):
         one(ctx, gen.gen_system(ctx.rng, phases=0.1, max_nodes=12, p_neg_src_rs=0.0), settings(ctx.rng), "settings")
     for _ in range(n // 3):
         one(ctx, gen.gen_system(ctx.rng, heavy=True, max_nodes=10, p_neg_src_rs=0.0), {}, "heavy")
+    for _ in range(n // 3):
+        one(ctx, signed_phase_currents(ctx.rng), {}, "signed_phase_currents")
+
+
+def signed_phase_currents(rng):
+    """per-phase values of constant-current loads written with a sign (a sink on a negative rail, naturally): a current is a magnitude
+    wherever it is configured - no passive element upstream may end up with more voltage at its output than at its input.
+    (Only ILoad: negative per-phase POWER values are outside the quantifier, DESIGN.md F25.)"""
+    d = gen.gen_system(rng, phases=1.0, max_nodes=10, p_neg_src_rs=0.0, p_micro=0.0)
+    names = list(d["phases"])
+    for c in d["comps"]:
+        if c["kind"] == "iload":
+            pc = c.get("pconf") if isinstance(c.get("pconf"), dict) else {}
+            if not pc:
+                pc = {p: gen.sd(rng, 1e-3, 0.3) for p in names if rng.random() < 0.7}
+            c["pconf"] = {p: (-abs(v) if rng.random() < 0.6 else v) for p, v in pc.items()}
+    d["_signed_phase_currents"] = True
+    return d
 
 
 def witnesses():
